@@ -76,11 +76,14 @@ pub fn child_main(args: &[String]) -> i32 {
         Some(s) => s,
         None => return 2,
     };
-    let r = if n == 512 {
-        world::keygen_sim::<V512>(seed, None, None).0.map(|(sk, pk)| (V512::sk_to_bytes(&sk), V512::pk_to_bytes(&pk)))
+    let (r, attempts) = if n == 512 {
+        let (r, t) = world::keygen_sim::<V512>(seed, None, None);
+        (r.map(|(sk, pk)| (V512::sk_to_bytes(&sk), V512::pk_to_bytes(&pk))), t.attempts)
     } else {
-        world::keygen_sim::<V1024>(seed, None, None).0.map(|(sk, pk)| (V1024::sk_to_bytes(&sk), V1024::pk_to_bytes(&pk)))
+        let (r, t) = world::keygen_sim::<V1024>(seed, None, None);
+        (r.map(|(sk, pk)| (V1024::sk_to_bytes(&sk), V1024::pk_to_bytes(&pk))), t.attempts)
     };
+    println!("ATTEMPTS {}", attempts);
     match r {
         Ok((sk, pk)) => {
             println!("KEY {} {}", hex(&sk), hex(&pk));
@@ -480,7 +483,7 @@ pub fn check(tier: Tier, seed: u64) -> i32 {
     }
     rep.rule = "a case is one keygen(seed) call: (i) inside a seeded multi-thread plan where every seed occurs 2-3 times on the same or different baton-scheduled threads (pre-emption at the draws of keygen's seed-expanded stream and of concurrent sign calls), with or without a simulator stream installed behind the ambient seam, plus once in a fresh child process; (ii) on one of the 256 single-bit neighbours of a sampled base seed (the neighbourhood of each sampled base seed is enumerated completely; base seeds are sampled). Non-trivial for (i): the call was pre-empted mid-call; for (ii): every neighbour. Distinct = distinct (schedule trace, thread, seed) resp. distinct key pairs".into();
     rep.assumptions = vec![
-        "keygen is stopped after ~200 ntru_gen attempts' worth of draws (bounded liveness)".into(),
+        "keygen is stopped after 3000 ntru_gen attempts' worth of draws (bounded liveness; a correct tree needs 13 resp. 24 attempts on average)".into(),
         "an ambient-entropy draw inside keygen is recorded as a probe, not an alarm; only differing key bytes are".into(),
     ];
     rep.components = json!({
